@@ -94,7 +94,8 @@ def run_one(harness, timeout, target, playback=False, extra=None):
     env['CARGO_NET_OFFLINE'] = 'true'
     t0 = time.time()
     os.makedirs(os.path.join(CACHE, 'kani-logs'), exist_ok=True)
-    logp = os.path.join(CACHE, 'kani-logs', harness.replace('::', '.') + ('.playback' if playback else '') + '.log')
+    # one log per (harness, slot, process): concurrent runs of one harness (slot warming, two checks sharing a harness) must not clobber each other
+    logp = os.path.join(CACHE, 'kani-logs', '%s.%s.%d%s.log' % (harness.replace('::', '.'), os.path.basename(target), os.getpid(), '.playback' if playback else ''))
     with open(logp, 'w') as f:
         p = subprocess.run(['bash', '-c', cmd], cwd=CRATE, env=env, stdout=f, stderr=subprocess.STDOUT)
     res.wall = time.time() - t0
@@ -150,6 +151,13 @@ def warm():
         rs = list(ex.map(lambda k: run_one('c01::c04_range_new_passes_offsets', 900, slot_dir(k)), range(NSLOTS)))
     for k, r in enumerate(rs):
         log('[kani] warm slot %d: %s %.0fs' % (k, r.status, r.wall))
+    # anything that did not come back clean is retried on its own (a slot is only a build cache: checks build what is missing anyway)
+    for k, r in enumerate(rs):
+        for attempt in range(2):
+            if rs[k].status == 'success':
+                break
+            rs[k] = run_one('c01::c04_range_new_passes_offsets', 900, slot_dir(k))
+            log('[kani] warm slot %d (retry %d): %s %.0fs' % (k, attempt + 1, rs[k].status, rs[k].wall))
     return all(r.status == 'success' for r in rs)
 
 
